@@ -46,6 +46,14 @@ func (self AnalyzedProgram) String() string {
 		singletons += "\n\n"
 	}
 
+	implBlocks := ""
+	for _, implBlock := range self.ImplBlocks {
+		implBlocks += implBlock.String() + "\n"
+	}
+	if implBlocks != "" {
+		implBlocks += "\n\n"
+	}
+
 	globals := ""
 	for _, glob := range self.Globals {
 		globals += glob.String()
@@ -59,7 +67,7 @@ func (self AnalyzedProgram) String() string {
 		functions = append(functions, fn.String())
 	}
 
-	return fmt.Sprintf("%s%s%s%s%s", imports, types, singletons, globals, strings.Join(functions, "\n\n"))
+	return fmt.Sprintf("%s%s%s%s%s%s", imports, types, singletons, implBlocks, globals, strings.Join(functions, "\n\n"))
 }
 
 //
